@@ -559,7 +559,90 @@ theorem c17_race_accept (evs : List RaceEv) (h : RaceEv.detach ∈ evs) :
   simp only [beq_iff_eq]
   exact this
 
+/-! ## attach during a slow detach: linearizability -/
+
+theorem microStep_take (m : MState) (c : Ctx) :
+    (microStep m (.take c)).1.st = (step m.st c .dropAttach).1 ∧
+    (microStep m (.take c)).2 = some (step m.st c .dropAttach).2 := by
+  cases h : m.st.handle <;> simp [microStep, step, h]
+
+/-- **C17 attach/detach linearizable.** Split the drop of the attach handle into "take the pair out
+of the slot" and "drop (flush) the pair", and let any operations of any threads take effect between
+the two halves — and between the halves of several detaches. For every such interleaving, from every
+state, there is a sequential order of the operations (`linearize`: every operation where it took
+effect, each detach at its `take`; it is the interleaving with the `dropPair` events erased, so
+program order and real-time order are kept) that produces the same routing state and the same
+result for every operation. In particular an `attach` issued while the old pair is still being
+flushed is an attach to an empty global: it succeeds and its sink is the one routed to afterwards. -/
+theorem c17_detach_attach_linearizable (m : MState) (evs : List Micro) :
+    ∃ seq : List (Ctx × Op), seq = linearize evs ∧
+      (microRun m evs).1.st = (run m.st seq).1 ∧ (microRun m evs).2 = (run m.st seq).2 := by
+  refine ⟨_, rfl, ?_⟩
+  induction evs generalizing m with
+  | nil => simp [microRun, linearize, run]
+  | cons ev rest ih =>
+    cases ev with
+    | op c o =>
+      have := ih { m with st := (step m.st c o).1 }
+      simp only [microRun, microStep, linearize, run]
+      exact ⟨this.1, by rw [this.2]⟩
+    | take c =>
+      obtain ⟨h1, h2⟩ := microStep_take m c
+      have := ih (microStep m (.take c)).1
+      simp only [microRun, linearize, run]
+      rw [h2]
+      rw [h1] at this
+      exact ⟨this.1, by rw [this.2]⟩
+    | dropPair c =>
+      have := ih { m with dropping := m.dropping.drop 1 }
+      simp only [microRun, microStep, linearize]
+      exact this
+
+/-- How long the flush takes, and what happens meanwhile, is irrelevant: erasing the `dropPair`
+events (an instantaneous drop) changes neither state nor results. -/
+theorem c17_slow_drop_irrelevant (m : MState) (evs : List Micro) :
+    (microRun m (evs.filter fun ev => match ev with | .dropPair _ => false | _ => true)).1.st = (microRun m evs).1.st ∧
+    (microRun m (evs.filter fun ev => match ev with | .dropPair _ => false | _ => true)).2 = (microRun m evs).2 := by
+  have lin : ∀ evs : List Micro,
+      linearize (evs.filter fun ev => match ev with | .dropPair _ => false | _ => true) = linearize evs := by
+    intro evs
+    induction evs with
+    | nil => rfl
+    | cons ev rest ih => cases ev <;> simp [linearize, ih]
+  obtain ⟨_, h1, h2, h3⟩ := c17_detach_attach_linearizable m evs
+  obtain ⟨_, g1, g2, g3⟩ := c17_detach_attach_linearizable m
+    (evs.filter fun ev => match ev with | .dropPair _ => false | _ => true)
+  subst h1 g1
+  rw [lin] at g2 g3
+  exact ⟨g2.trans h2.symm, g3.trans h3.symm⟩
+
+/-- No state of the sequential model, whatever its history, hands an entry back (from a context
+without test sink) and then refuses an `attach` as "already installed": handing back means nothing
+is attached. -/
+theorem c17_returned_then_attach_ok (st : State) (c c' : Ctx) (e e' s : Nat) (hts : testSink st c = none)
+    (h : (step st c (.tryAppend e)).2 = .returned e') :
+    (step (step st c (.tryAppend e)).1 c' (.attach s)).2 = .ok := by
+  obtain ⟨_, hr, hst⟩ := c17_try_append_returns_unchanged st c e e' h
+  rw [hst]
+  have : st.attached = none := by simpa [route, hts] using hr
+  simp [step, this]
+
+/-- **Witness: clearing a cached "attached" flag after the slow drop is not linearizable.** In the
+flag variant the schedule attach 1 · take · attach 2 (another thread) · dropPair · try_append · attach 3
+lets the second attach succeed, then hands the entry back *and* refuses the third attach — a pair
+of answers that by `c17_returned_then_attach_ok` no sequential order of any operations can produce
+(with hence no linearization), while the micro-step model of the code routes the entry to sink 2. -/
+example :
+    (flagRun ⟨none, none, false⟩ [.attach 1, .take, .attach 2, .dropPair, .tryAppend 7, .attach 3]).2
+      = [.ok, .ok, .ok, .returned 7, .panic] ∧
+    (microRun ⟨State.init none, []⟩
+      [.op ⟨0, none⟩ (.attach 1), .take ⟨0, none⟩, .op ⟨1, none⟩ (.attach 2), .dropPair ⟨0, none⟩,
+       .op ⟨2, none⟩ (.tryAppend 7), .op ⟨2, none⟩ (.attach 3)]).2
+      = [.ok, .ok, .ok, .dest 2, .panic] := by
+  decide
+
 /-! ## non-vacuity -/
+
 
 /-- A populated state: sink 1 attached (handle live), thread 2 has test sink 7, runtime 0 has test
 sink 9. Thread 2 inside runtime 0 → 7; thread 0 inside runtime 0 → 9; thread 0 outside → 1; a
@@ -615,3 +698,6 @@ end Global
 #print axioms Global.c17_race_exactly_one
 #print axioms Global.c17_race_conserves
 #print axioms Global.c17_race_accept
+#print axioms Global.c17_detach_attach_linearizable
+#print axioms Global.c17_slow_drop_irrelevant
+#print axioms Global.c17_returned_then_attach_ok
